@@ -65,10 +65,12 @@ func (b *WALEntriesBuffer) Count() int {
 
 // CreateResponse creates a WALStreamResponse from the current buffer
 func (b *WALEntriesBuffer) CreateResponse() *replication_proto.WALStreamResponse {
+	// The buffer holds the payloads as they were serialized: nothing compresses them,
+	// so the response must not announce a codec (the receiver would try to decompress)
 	return &replication_proto.WALStreamResponse{
 		Entries:    b.entries,
-		Compressed: b.compression != replication_proto.CompressionCodec_NONE,
-		Codec:      b.compression,
+		Compressed: false,
+		Codec:      replication_proto.CompressionCodec_NONE,
 	}
 }
 
